@@ -243,3 +243,1374 @@ def check_stream_direct(run, rng, n):
         coq_cases.append(ccase(c, o)); kept.append((c, o))
     masks = common.eval_cases('c16sd', PRE, CASE_T, coq_cases, 'stream_judge', per_file=120)
     return kept, masks
+
+
+# ===================================================================================== monitor: full renders
+import pdfread
+
+VARIANTS = [None, 'pdf/a-1b', 'pdf/a-2b', 'pdf/a-3b', 'pdf/a-4b', 'pdf/a-2u', 'pdf/a-3u', 'pdf/a-4u', 'pdf/ua-1', 'debug']
+VERSIONS = [None, '1.4', '1.5', '1.7', '2.0']
+ZOOMS = [1, 1, 1, 0.5, 2, 1.5, 0.1, 3]
+COLORS_CSS = ['red', '#00f', 'rgba(0,128,0,.5)', 'rgba(10,20,30,.25)', 'hsl(120 50% 50%)', 'hsl(20 80% 40% / .5)',
+              'lab(50 20 30)', 'lab(50 20 30 / .5)', 'lch(60 40 200)', 'oklab(.6 .1 -.1)', 'oklch(.5 .1 20 / .7)',
+              'hwb(10 20% 30%)', 'color(xyz-d50 .2 .3 .4)', 'color(xyz-d65 .2 .3 .4 / .6)', 'transparent', 'black',
+              'currentColor', 'rgb(0 0 0 / 1)']
+BORDER_STYLES = ['solid', 'dashed', 'dotted', 'double', 'groove', 'ridge', 'inset', 'outset', 'none', 'hidden']
+IMAGES = ['pattern.png', 'blue.jpg', 'icon.png', 'pattern.gif', 'pattern.svg', 'pattern-transparent.svg', 'logo_small.png',
+          'pattern.palette.png']
+WORDS = ['abc', 'defg', 'ab', 'hgfe dcba', 'a', 'bcd efg', 'Hello', 'fi', 'ABC def']
+
+
+# colours that tinycss2 can convert to sRGB: gradient stops and 3D border styles of any other colour crash the
+# unchanged tree (findings C02-a/b/c of the report: Gradient.draw / draw.color.darken / lighten)
+COLORS_SRGB = [c for c in COLORS_CSS if not c.startswith(('lab', 'lch', 'oklab', 'oklch', 'color(')) and c != 'currentColor']
+STYLES_3D = ('groove', 'ridge', 'inset', 'outset')
+
+
+def _c(rng, srgb=False):
+    return rng.choice(COLORS_SRGB if srgb else COLORS_CSS)
+
+
+def _border(rng, widths, rounded=False):
+    # dashed/dotted sides next to a rounded corner crash the unchanged tree (draw_dots, finding C02-d)
+    style = rng.choice([b for b in BORDER_STYLES if not (rounded and b in ('dashed', 'dotted'))])
+    return '%dpx %s %s' % (rng.choice(widths), style, _c(rng, srgb=style in STYLES_3D))
+
+
+def gen_gradient(rng):
+    stops = ', '.join('%s %d%%' % (_c(rng, True), p) if rng.random() < 0.5 else _c(rng, True)
+                      for p in sorted(rng.sample(range(0, 101, 10), rng.choice([2, 2, 3, 4]))))
+    kind = rng.random()
+    rep = 'repeating-' if rng.random() < 0.25 else ''
+    if kind < 0.5:
+        return '%slinear-gradient(%s%s)' % (rep, rng.choice(['', 'to right, ', '45deg, ', 'to top left, ', '0.3turn, ']), stops)
+    return '%sradial-gradient(%s%s)' % (rep, rng.choice(['', 'circle, ', 'ellipse at top, ', '10px 20px at 30% 40%, ',
+                                                            'closest-side, ', 'circle at 0 0, ']), stops)
+
+
+def gen_svg(rng, size=40):
+    """A well-formed SVG (numeric attributes valid: malformed ones hit finding F28)."""
+    defs, body = [], []
+    ids = {'n': 0}
+
+    def nid(p):
+        ids['n'] += 1
+        return '%s%d' % (p, ids['n'])
+
+    def paint():
+        r = rng.random()
+        if r < 0.45:
+            return rng.choice(['red', 'blue', '#0a0', 'black', 'none', 'rgba(0,0,255,.5)', 'lime'])
+        if r < 0.8:
+            g = nid('g')
+            stops = ''.join("<stop offset='%s' stop-color='%s'%s/>" % (
+                o, rng.choice(['red', 'blue', 'lime', 'black']), rng.choice(['', " stop-opacity='.5'", " stop-opacity='0'"]))
+                for o in rng.choice([['0', '1'], ['0', '.5', '1'], ['.2', '.2', '.8'], ['0']]))
+            if rng.random() < 0.6:
+                defs.append("<linearGradient id='%s'%s%s>%s</linearGradient>" % (
+                    g, rng.choice(['', " x1='0' y1='0' x2='1' y2='1'", " gradientUnits='userSpaceOnUse' x2='%d'" % size]),
+                    rng.choice(['', " spreadMethod='reflect'", " spreadMethod='repeat'", " gradientTransform='rotate(30)'"]), stops))
+            else:
+                defs.append("<radialGradient id='%s'%s%s>%s</radialGradient>" % (
+                    g, rng.choice(['', " cx='.3' cy='.3' r='.6'", " fx='.2' fy='.2'"]),
+                    rng.choice(['', " spreadMethod='reflect'", " spreadMethod='repeat'"]), stops))
+            return 'url(%%23%s)' % g
+        p = nid('p')
+        defs.append("<pattern id='%s' width='.25' height='.25'><rect width='3' height='3' fill='%s'/></pattern>" % (
+            p, rng.choice(['red', 'blue'])) if rng.random() < 0.5 else
+            "<pattern id='%s' patternUnits='userSpaceOnUse' width='8' height='8'><circle cx='4' cy='4' r='3' fill='%s'/></pattern>" % (
+                p, rng.choice(['green', 'black'])))
+        return 'url(%%23%s)' % p
+
+    def attrs():
+        a = " fill='%s'" % paint()
+        if rng.random() < 0.5:
+            a += " stroke='%s' stroke-width='%s'" % (paint(), rng.choice(['1', '2', '0.5', '0']))
+        if rng.random() < 0.2:
+            a += " stroke-dasharray='%s'" % rng.choice(['2', '3 1', '0 0', '1 2 3'])
+        if rng.random() < 0.25:
+            a += " opacity='%s'" % rng.choice(['.5', '0', '1', '.25'])
+        if rng.random() < 0.2:
+            a += " fill-opacity='%s'" % rng.choice(['.5', '0', '1'])
+        if rng.random() < 0.2:
+            a += " stroke-opacity='%s'" % rng.choice(['.5', '1'])
+        if rng.random() < 0.25:
+            a += " transform='%s'" % rng.choice(['rotate(20)', 'scale(.5)', 'translate(5 5)', 'matrix(1 0 0 1 2 2)',
+                                                  'skewX(10)', 'scale(0)', 'rotate(45 10 10)'])
+        if rng.random() < 0.1:
+            c = nid('c')
+            defs.append("<clipPath id='%s'><circle cx='%d' cy='%d' r='%d'/></clipPath>" % (c, size // 2, size // 2, size // 3))
+            a += " clip-path='url(%%23%s)'" % c
+        if rng.random() < 0.1:
+            m = nid('m')
+            defs.append("<mask id='%s'><rect width='%d' height='%d' fill='white'/><circle cx='5' cy='5' r='4' fill='black'/></mask>" % (m, size, size))
+            a += " mask='url(%%23%s)'" % m
+        if rng.random() < 0.05:
+            f = nid('f')
+            defs.append("<filter id='%s'><feOffset dx='2' dy='2'/><feBlend mode='%s'/></filter>" % (f, rng.choice(['multiply', 'screen', 'color-dodge'])))
+            a += " filter='url(%%23%s)'" % f
+        return a
+
+    def shape(depth=0):
+        r = rng.random()
+        if r < 0.2:
+            return "<rect x='%d' y='%d' width='%d' height='%d'%s%s/>" % (
+                rng.randrange(10), rng.randrange(10), rng.choice([0, 5, 20]), rng.choice([5, 20]),
+                rng.choice(['', " rx='3'", " rx='2' ry='5'"]), attrs())
+        if r < 0.3:
+            return "<circle cx='%d' cy='%d' r='%d'%s/>" % (rng.randrange(30), rng.randrange(30), rng.choice([0, 4, 12]), attrs())
+        if r < 0.38:
+            return "<ellipse cx='15' cy='15' rx='%d' ry='%d'%s/>" % (rng.choice([3, 10]), rng.choice([0, 6]), attrs())
+        if r < 0.46:
+            return "<line x1='1' y1='2' x2='%d' y2='%d'%s/>" % (rng.randrange(40), rng.randrange(40), attrs())
+        if r < 0.56:
+            mk = ''
+            d = rng.choice([
+                'M 2 2 L 30 5 L 20 30 z', 'M5,5 h20 v20 h-20 z', 'M 5 20 C 10 0, 20 0, 30 20 S 35 35 20 30',
+                'M 5 5 Q 20 0 30 20 T 10 30', 'M 10 10 A 8 8 0 1 1 25 25', 'M 1 1', 'M 3 3 l 5 0 m 2 2 l 5 5'])
+            # a marker with orient=auto on a single-vertex path raises inside draw_markers (swallowed: finding F28)
+            if rng.random() < 0.4 and d != 'M 1 1':
+                k = nid('k')
+                defs.append("<marker id='%s' markerWidth='6' markerHeight='6' refX='3' refY='3'%s><circle cx='3' cy='3' r='2'%s/></marker>" % (
+                    k, rng.choice(['', " orient='auto'", " viewBox='0 0 6 6'", " markerUnits='userSpaceOnUse'"]), attrs()))
+                mk = " %s='url(%%23%s)'" % (rng.choice(['marker', 'marker-start', 'marker-mid', 'marker-end']), k)
+            return "<path d='%s'%s%s/>" % (d, mk, attrs())
+        if r < 0.64:
+            return "<poly%s points='%s'%s/>" % (rng.choice(['gon', 'line']), rng.choice(['2,2 30,5 20,30', '0,0 10,10', '5,5']), attrs())
+        if r < 0.78:
+            inner = ''
+            if rng.random() < 0.3:
+                inner = "<tspan dx='2' fill='blue'>%s</tspan>" % rng.choice(WORDS)
+            return "<text x='%d' y='%d' font-size='%d'%s%s%s>%s%s</text>" % (
+                rng.randrange(20), 10 + rng.randrange(20), rng.choice([6, 10, 14]),
+                rng.choice(['', " text-anchor='middle'", " text-anchor='end'", " font-family='weasyprint'", " rotate='10 20'",
+                            " letter-spacing='2'", " textLength='30'", " dx='1 2 3'"]),
+                rng.choice(['', " font-weight='bold'", " font-style='italic'"]), attrs(), rng.choice(WORDS + ['']), inner)
+        if r < 0.86 and depth < 2:
+            return "<g%s>%s</g>" % (attrs(), ''.join(shape(depth + 1) for _ in range(rng.choice([0, 1, 2, 3]))))
+        if r < 0.92:
+            u = nid('u')
+            defs.append("<rect id='%s' width='6' height='6'%s/>" % (u, attrs()) if rng.random() < 0.6 else
+                        "<symbol id='%s' viewBox='0 0 10 10'><circle cx='5' cy='5' r='4'/></symbol>" % u)
+            return "<use href='%%23%s' x='%d' y='%d'%s/>" % (u, rng.randrange(20), rng.randrange(20),
+                                                              rng.choice(['', " width='10' height='10'"]))
+        if r < 0.97:
+            return "<image href='%s' x='2' y='2' width='%d' height='%d'%s/>" % (
+                'file://%s/tests/resources/%s' % (common.REPO, rng.choice(['pattern.png', 'blue.jpg', 'pattern.svg'])),
+                rng.choice([8, 16]), rng.choice([8, 16]),
+                rng.choice(['', " preserveAspectRatio='none'", " opacity='.5'"]))
+        return "<svg x='5' y='5' width='20' height='20' viewBox='0 0 10 10'%s>%s</svg>" % (
+            rng.choice(['', " overflow='visible'", " preserveAspectRatio='xMaxYMin slice'"]), shape(depth + 1))
+
+    for _ in range(rng.choice([1, 2, 3, 5])):
+        body.append(shape())
+    head = "<svg xmlns='http://www.w3.org/2000/svg' xmlns:xlink='http://www.w3.org/1999/xlink' width='%d' height='%d'%s>" % (
+        size, size, rng.choice(['', " viewBox='0 0 %d %d'" % (size, size), " viewBox='0 0 20 20' preserveAspectRatio='xMinYMax meet'"]))
+    return head + ('<defs>%s</defs>' % ''.join(defs) if defs else '') + ''.join(body) + '</svg>'
+
+
+def gen_box_style(rng, ctx):
+    st = []
+    r = rng.random
+    rounded = r() < 0.15
+    if r() < 0.35:
+        st.append('color:%s' % _c(rng))
+    if r() < 0.4:
+        st.append('background:%s' % rng.choice([_c(rng), gen_gradient(rng), 'url(%s) %s' % (
+            rng.choice(IMAGES), rng.choice(['', 'no-repeat', 'repeat-x', 'space', 'round', 'no-repeat 3px 4px / 10px 10px',
+                                            'repeat-y right bottom', 'space round'])),
+            '%s, %s' % (gen_gradient(rng), _c(rng))]))
+    if r() < 0.1:
+        st.append('background-clip:%s' % rng.choice(['padding-box', 'content-box', 'border-box', 'text']))
+    if r() < 0.35:
+        if r() < 0.5:
+            st.append('border:' + _border(rng, [0, 1, 2, 5], rounded))
+        else:
+            for side in rng.sample(['top', 'right', 'bottom', 'left'], rng.choice([1, 2, 4])):
+                st.append('border-%s:%s' % (side, _border(rng, [1, 3, 6], rounded)))
+    if rounded:
+        st.append('border-radius:%s' % rng.choice(['3px', '50%', '10px 2px', '5px / 10px', '0 8px 0 8px']))
+    if r() < 0.05:
+        st.append('border-image:url(%s) %s' % (rng.choice(['border.svg', 'pattern.png']), rng.choice(['30', '1 fill', '2 round', '30 / 5px / 2px space'])))
+    if r() < 0.04:
+        st.append('mask-border:url(%s) %s' % (rng.choice(['mask.svg', 'pattern.png']), rng.choice(['1', '30 fill'])))
+    translucent = False
+    if r() < 0.15:
+        st.append('opacity:%s' % rng.choice(['.5', '0', '1', '.99', '.25']))
+        translucent = True
+    if r() < 0.15:
+        # a non-invertible transform together with opacity < 1 on the same box under pdf/ua-1 is finding F29
+        choices = ['rotate(10deg)', 'scale(2)', 'translate(3px, 4px)', 'matrix(1,0,0,1,5,5)', 'skew(10deg)', 'scale(.5) rotate(1rad)']
+        if not (translucent and ctx.get('marked')):
+            choices += ['scale(0)', 'scaleX(0)']
+        st.append('transform:%s' % rng.choice(choices))
+        if r() < 0.3:
+            st.append('transform-origin:%s' % rng.choice(['0 0', '50% 50%', 'right bottom']))
+    if r() < 0.1:
+        st.append('outline:' + _border(rng, [1, 3], rounded))
+    if r() < 0.1:
+        st.append('overflow:%s' % rng.choice(['hidden', 'visible', 'auto']))
+    if r() < 0.2:
+        st.append('padding:%dpx' % rng.choice([0, 2, 5]))
+    if r() < 0.15:
+        st.append('margin:%dpx' % rng.choice([0, 2, 5]))
+    if r() < 0.15:
+        st.append('width:%s' % rng.choice(['50px', '50%', '100px', '10px']))
+    if r() < 0.1:
+        st.append('height:%s' % rng.choice(['20px', '40px', '5px']))
+    if r() < 0.08:
+        st.append('position:%s;%s' % (rng.choice(['relative', 'absolute']), rng.choice(['top:3px;left:5px', 'z-index:%d' % rng.choice([-1, 0, 2]),
+                                                                                       'clip:rect(1px, 30px, 20px, 2px)'])))
+    if r() < 0.05:
+        st.append('float:%s' % rng.choice(['left', 'right']))
+    if r() < 0.12:
+        st.append('text-decoration:%s %s' % (rng.choice(['underline', 'overline', 'line-through', 'underline overline line-through']),
+                                             rng.choice(['', 'wavy', 'dotted', 'double red', 'dashed'])))
+    # a form field whose font draws no glyph crashes build_fonts_dictionary (findings C02-e/f): with pdf_forms every
+    # field keeps the font of the body text
+    if ctx.get('fonts_ok', True):
+        if r() < 0.08:
+            st.append('font-size:%s' % rng.choice(['6px', '14px', '0', '20px', '1px']))
+        if r() < 0.06:
+            st.append('font-family:%s' % rng.choice(['weasyprint-otb', 'DejaVu Sans', 'monospace', 'serif']))
+        if r() < 0.05:
+            st.append('font-weight:bold')
+    if r() < 0.04:
+        st.append('visibility:hidden')
+    if r() < 0.04:
+        st.append('columns:2;column-rule:' + _border(rng, [1, 3]))
+    if r() < 0.04:
+        st.append('text-overflow:ellipsis;white-space:nowrap;overflow:hidden;width:30px')
+    if r() < 0.03:
+        st.append('block-ellipsis:auto;max-lines:1')
+    if r() < 0.04:
+        st.append('mix-blend-mode:multiply')
+    if r() < 0.04:
+        st.append('image-rendering:%s' % rng.choice(['pixelated', 'crisp-edges', 'auto']))
+    if r() < 0.04:
+        st.append('break-before:page')
+    if r() < 0.04:
+        st.append('box-decoration-break:clone')
+    return ';'.join(st)
+
+
+def gen_content(rng, depth, ctx):
+    r = rng.random()
+    n = ctx['n'] = ctx['n'] + 1
+    style = gen_box_style(rng, ctx)
+    sa = ' style="%s"' % style if style else ''
+    if r < 0.22 or depth > 3:
+        return '<p%s>%s</p>' % (sa, ' '.join(rng.choice(WORDS) for _ in range(rng.choice([1, 2, 4, 9]))))
+    if r < 0.34:
+        return '<div%s>%s</div>' % (sa, ''.join(gen_content(rng, depth + 1, ctx) for _ in range(rng.choice([0, 1, 2, 3]))))
+    if r < 0.40:
+        lvl = rng.choice([1, 2, 3, 4])
+        ctx['ids'].append('h%d' % n)
+        return '<h%d id="h%d"%s>%s</h%d>' % (lvl, n, sa, rng.choice(WORDS + ['T(i)tle \\ )', 'é ü ✓', '']), lvl)
+    if r < 0.47:
+        return '<img src="%s"%s%s>' % (rng.choice(IMAGES), rng.choice(['', ' width=20', ' width=30 height=10', ' alt="x"']), sa)
+    if r < 0.56:
+        ctx['svg'] = True
+        return '<img src="data:image/svg+xml,%s"%s>' % (gen_svg(rng).replace('"', "'"), sa)
+    if r < 0.63:
+        kind = rng.random()
+        if kind < 0.4 and ctx['ids']:
+            href = '#' + rng.choice(ctx['ids'])
+        elif kind < 0.5:
+            href = '#nowhere'
+        elif kind < 0.8:
+            href = rng.choice(['https://example.org/a(b)c', 'http://x.test/?q=é', 'mailto:a@b.c', '../x.html'])
+        else:
+            ctx['attach'] = True
+            return '<a rel="attachment" href="data:text/plain,att%d"%s>%s</a>' % (n, sa, rng.choice(WORDS))
+        return '<p><a href="%s"%s>%s<span> %s</span></a></p>' % (href, sa, rng.choice(WORDS), rng.choice(WORDS))
+    if r < 0.71:
+        ctx['forms'] = True
+        f = rng.random()
+        name = rng.choice(['', ' name="n%d"' % rng.randrange(3)])
+        if f < 0.2:
+            return '<input%s value="%s"%s%s>' % (name, rng.choice(['v', 'a(b', '']), rng.choice(['', ' maxlength=5', ' type=password', ' type=file']), sa)
+        if f < 0.4:
+            return '<input type=checkbox%s%s%s>' % (name, rng.choice(['', ' checked']), sa)
+        if f < 0.55:
+            return '<form><input type=radio name=r%s%s><input type=radio name=r value=b></form>' % (rng.choice(['', ' checked']), sa)
+        if f < 0.7:
+            return '<select%s%s><option value=a>A</option><option%s>B</option></select>' % (
+                name, rng.choice(['', ' multiple']), rng.choice(['', ' selected']))
+        if f < 0.85:
+            return '<textarea%s%s>%s</textarea>' % (name, sa, rng.choice(WORDS))
+        return '<form action="http://x.test/s" method="%s"><input%s><button%s>go</button><input type=submit value=ok></form>' % (
+            rng.choice(['get', 'post']), name, sa)
+    if r < 0.78:
+        rows = ''.join('<tr>%s</tr>' % ''.join('<t%s style="%s">%s</t%s>' % (
+            c, rng.choice(['', 'border:' + _border(rng, [1, 2]), 'background:%s' % _c(rng)]),
+            rng.choice(WORDS), c) for c in rng.choice([['d', 'd'], ['h', 'd', 'd'], ['d']])) for _ in range(rng.choice([1, 2, 3])))
+        return '<table style="border-collapse:%s;%s">%s%s</table>' % (
+            rng.choice(['collapse', 'separate']), style, rng.choice(['', '<caption>cap</caption>', '<thead><tr><th>H</th></tr></thead>']), rows)
+    if r < 0.84:
+        tag = rng.choice(['ul', 'ol', 'dl'])
+        if tag == 'dl':
+            return '<dl%s><dt>t</dt><dd>%s</dd></dl>' % (sa, rng.choice(WORDS))
+        return '<%s style="list-style:%s;%s">%s</%s>' % (tag, rng.choice(['disc', 'decimal', 'square inside', 'url(pattern.png)', 'none', '"x"']), style,
+                                                          ''.join('<li>%s</li>' % rng.choice(WORDS) for _ in range(rng.choice([1, 2, 3]))), tag)
+    if r < 0.90:
+        return '<span%s>%s</span> <b>%s</b> <span style="display:inline-block;%s">%s</span>' % (
+            sa, rng.choice(WORDS), rng.choice(WORDS), gen_box_style(rng, ctx), rng.choice(WORDS))
+    if r < 0.95:
+        tag = rng.choice(['section', 'article', 'blockquote', 'pre', 'hr'])
+        return '<%s%s>%s</%s>' % (tag, sa, '' if tag == 'hr' else gen_content(rng, depth + 1, ctx), tag)
+    return '<div style="display:%s;%s">%s</div>' % (rng.choice(['flex', 'grid', 'inline-block', 'table', 'list-item']), style,
+                                                     ''.join('<div>%s</div>' % rng.choice(WORDS) for _ in range(rng.choice([1, 2, 3]))))
+
+
+def gen_doc(rng, opts):
+    """Returns (html, expectation dict).  The grammar avoids the known defect sites F28 (SVG that raises while
+    being drawn) and F29 (opacity + non-invertible transform under pdf/ua-1)."""
+    W, H = rng.choice([(200, 150), (300, 200), (120, 400), (500, 500), (64, 64), (333, 77)])
+    bleed = rng.choice([0, 0, 0, 5, 12, 30])
+    marks = rng.choice(['', '', 'crop', 'cross', 'crop cross']) if bleed else ''
+    margin = rng.choice([0, 5, 10, 20])
+    # pdf/ua marks content: avoid opacity together with scale(0) there (F29)
+    variant = opts.get('pdf_variant')
+    ctx = {'n': 0, 'ids': [], 'marked': variant == 'pdf/ua-1', 'fonts_ok': not opts.get('pdf_forms')}
+    page_extra = ''
+    if rng.random() < 0.25:
+        page_extra += '@top-center{content:"p " counter(page);color:%s}' % _c(rng)
+    if rng.random() < 0.15:
+        page_extra += '@bottom-right-corner{content:"x";background:%s;border:%s}' % (_c(rng), _border(rng, [1]))
+    if rng.random() < 0.15:
+        page_extra += 'background:%s;' % rng.choice([_c(rng), gen_gradient(rng), 'url(pattern.png)'])
+    if rng.random() < 0.1:
+        page_extra += 'border:%s;' % _border(rng, [2])
+    first = ''
+    first_size = None
+    if rng.random() < 0.15:
+        first_size = (W + 50, H + 20)
+        first = '@page :first{size:%dpx %dpx}' % first_size
+    head = ''
+    meta = {}
+    if rng.random() < 0.6:
+        meta['title'] = rng.choice(['Title', 'T(i)tle \\ 1', 'Ünïcödé ✓', 'a' * 70])
+        head += '<title>%s</title>' % meta['title']
+    for name, values in (('author', ['Me', 'A (B)', 'Zoë']), ('description', ['desc', 'd)e(s']), ('keywords', ['k1, k2', 'kw']),
+                         ('generator', ['gen 1.0']), ('dcterms.created', ['2011-04-20', '2011-04-20T23:21:12+02:00', 'invalid']),
+                         ('dcterms.modified', ['2013', '2013-07-01T10:00Z']), ('custom-key', ['custom value', 'vä(l']),
+                         ('other_key!', ['x'])):
+        if rng.random() < 0.3:
+            meta[name] = rng.choice(values)
+            head += '<meta name="%s" content="%s">' % (name, meta[name])
+    if rng.random() < 0.2:
+        head += '<link rel="attachment" href="data:text/plain,linked" title="t(1)">'
+        ctx['attach'] = True
+    lang = rng.choice(['', '', ' lang="en"', ' lang="fr-FR"'])
+    body = ''.join(gen_content(rng, 0, ctx) for _ in range(rng.choice([1, 2, 3, 5, 8])))
+    if not ctx['fonts_ok']:
+        body = '<p>abcdefgh ABC Hello fi</p>' + body
+    html = ('<html%s><head>%s<style>@font-face{src:url(weasyprint.otb);font-family:weasyprint-otb}'
+            '@page{size:%dpx %dpx;margin:%dpx;%s%s%s}%s'
+            'body{font-family:weasyprint;font-size:10px;line-height:12px;margin:0}'
+            'h1,h2,h3,h4{font-size:12px;margin:2px 0}</style></head><body>%s</body></html>' % (
+                lang, head, W, H, margin, 'bleed:%dpx;' % bleed if bleed else '', 'marks:%s;' % marks if marks else '',
+                page_extra, first, body))
+    return html, {'size': (W, H), 'first_size': first_size, 'bleed': bleed, 'meta': meta, 'forms': ctx.get('forms', False),
+                  'svg': ctx.get('svg', False), 'attach': ctx.get('attach', False), 'ids': len(ctx['ids'])}
+
+
+def gen_options(rng):
+    o = {}
+    variant = rng.choice(VARIANTS + [None, None, None])
+    if variant:
+        o['pdf_variant'] = variant
+    if rng.random() < 0.4:
+        o['uncompressed_pdf'] = True
+    if rng.random() < 0.35:
+        o['pdf_version'] = rng.choice(VERSIONS[1:])
+    if rng.random() < 0.3:
+        o['pdf_identifier'] = rng.choice(['abc', 'id(with)paren\\', '\xff\x00bin', 'x' * 40])
+    if rng.random() < 0.4:
+        o['pdf_forms'] = True
+    if rng.random() < 0.25:
+        o['srgb'] = True
+    if rng.random() < 0.15:
+        o['full_fonts'] = True
+    if rng.random() < 0.2:
+        o['hinting'] = True
+    if rng.random() < 0.4:
+        o['custom_metadata'] = True
+    if rng.random() < 0.15:
+        o['presentational_hints'] = True
+    if rng.random() < 0.15:
+        o['optimize_images'] = True
+    if rng.random() < 0.1:
+        o['jpeg_quality'] = rng.choice([10, 90])
+    if rng.random() < 0.1:
+        o['dpi'] = rng.choice([10, 72, 300])
+    if rng.random() < 0.15:
+        o['attachments'] = [{'data': 'attached %d' % i, 'name': rng.choice(['a.txt', 'n(a)me', None]),
+                             'description': rng.choice([None, 'desc'])} for i in range(rng.choice([1, 2]))]
+    return o, rng.choice(ZOOMS)
+
+
+# ------------------------------------------------------------------------------------------------ the judge
+
+SKEL = {'q': 0, 'Q': 1, 'BT': 2, 'ET': 3, 'BMC': 4, 'BDC': 4, 'EMC': 5, 'cm': 6}
+
+
+def skeleton(ops):
+    out = []
+    for op, _ in ops:
+        code = SKEL.get(op)
+        if code is None:
+            code = 7 if op in pdfread.TEXT_ONLY else 8
+        if code == 8 and out and out[-1] == 8:
+            continue
+        out.append(code)
+    return out
+
+
+def close(a, b, tol=2e-4):
+    return abs(a - b) <= tol * max(1.0, abs(a), abs(b)) + 1e-5
+
+
+def judge_pdf(pdf, case, pages):
+    """Everything the property demands of one output file.  Returns dict(bad=[(clause, detail)], stats, skeletons)."""
+    opts = case.get('options') or {}
+    zoom = case.get('zoom', 1)
+    exp = case.get('expect') or {}
+    bad = []
+    doc = pdfread.parse(pdf)
+    bad += pdfread.check_structure(doc)
+    stats = {'bytes': len(pdf), 'objects': len(doc.objects), 'pages': len(pages), 'xref': getattr(doc, '_xref_kind', None),
+             'version': doc.version, 'streams': 0, 'operators': 0}
+    skeletons = []
+    if not doc.objects:
+        return {'bad': bad, 'stats': stats, 'skeletons': skeletons}
+    # header / options
+    want_version = opts.get('pdf_version')
+    if not want_version and opts.get('pdf_variant'):
+        want_version = {'pdf/a-1b': '1.4', 'pdf/a-4b': '2.0', 'pdf/a-4u': '2.0', 'pdf/ua-1': None, 'debug': None}.get(opts['pdf_variant'], '1.7')
+    if doc.version != (want_version or '1.7'):
+        bad.append(('header-version', 'header says %s, expected %s' % (doc.version, want_version or '1.7')))
+    ident = opts.get('pdf_identifier')
+    needs_id = bool(ident) or str(opts.get('pdf_variant')).startswith('pdf/a')
+    idv = doc.trailer.get('ID')
+    if needs_id and not (isinstance(idv, list) and len(idv) == 2):
+        bad.append(('trailer-id', 'identifier requested but /ID is %r' % (idv,)))
+    if not needs_id and idv is not None:
+        bad.append(('trailer-id', '/ID present though no identifier was requested'))
+    if ident and isinstance(idv, list) and idv and isinstance(idv[0], pdfread.PDFString):
+        want = ident.encode('latin-1') if isinstance(ident, str) else ident
+        if bytes(idv[0]) != want:
+            bad.append(('trailer-id', '/ID[0] %r differs from the requested identifier %r' % (bytes(idv[0]), want)))
+    # page tree = rendered pages ; MediaBox = page size x 0.75 x zoom plus bleed
+    pdf_pages = doc.pages()
+    if len(pdf_pages) != len(pages):
+        bad.append(('page-count', '%d pages in the page tree, %d rendered' % (len(pdf_pages), len(pages))))
+    contents_seen = set()
+    scale = 0.75 * zoom
+    for i, (pp, pg) in enumerate(zip(pdf_pages, pages)):
+        mb = doc.resolve(pp.get('MediaBox'))
+        c = pp.get('Contents')
+        key = repr(c)
+        if key in contents_seen:
+            bad.append(('page-tree', 'page %d shares its /Contents %s with another page' % (i, key)))
+        contents_seen.add(key)
+        if not (isinstance(mb, list) and len(mb) == 4):
+            continue
+        b = pg['bleed']
+        want = [-b['left'] * scale, -b['top'] * scale, (pg['w'] + b['right']) * scale, (pg['h'] + b['bottom']) * scale]
+        if not all(close(x, y) for x, y in zip(mb, want)):
+            bad.append(('mediabox', 'page %d MediaBox %r, expected %r (size %sx%s bleed %r zoom %s)' % (i, mb, want, pg['w'], pg['h'], b, zoom)))
+        if 'size' in exp:
+            W, H = exp['first_size'] if (i == 0 and exp.get('first_size')) else exp['size']
+            if not (close(mb[2] - mb[0], (W + 2 * exp['bleed']) * scale) and close(mb[3] - mb[1], (H + 2 * exp['bleed']) * scale)):
+                bad.append(('mediabox', 'page %d MediaBox %r does not have the size of @page %sx%s + bleed %s at zoom %s' % (i, mb, W, H, exp['bleed'], zoom)))
+        for k in ('TrimBox', 'BleedBox'):
+            bx = doc.resolve(pp.get(k))
+            if isinstance(bx, list) and len(bx) == 4 and all(isinstance(v, (int, float)) for v in bx + mb):
+                if not (bx[0] >= mb[0] - 1e-4 and bx[1] >= mb[1] - 1e-4 and bx[2] <= mb[2] + 1e-4 and bx[3] <= mb[3] + 1e-4):
+                    bad.append(('page-box', 'page %d /%s %r is not inside the MediaBox %r' % (i, k, bx, mb)))
+    # content streams
+    for where, num, data, res in doc.walk_content_streams():
+        stats['streams'] += 1
+        if data is None:
+            bad.append(('stream-decode', '%s: content stream %s cannot be decoded' % (where, num)))
+            continue
+        try:
+            ops = pdfread.tokenize_content(data)
+        except pdfread.PDFError as exc:
+            bad.append(('content-syntax', '%s: %s' % (where, exc)))
+            continue
+        stats['operators'] += len(ops)
+        skeletons.append(skeleton(ops))
+        for clause, detail in pdfread.check_content(ops, res, doc):
+            bad.append((clause, '%s: %s' % (where, detail)))
+    return {'bad': bad[:40], 'stats': stats, 'skeletons': skeletons}
+
+
+def _streams_of(pdf):
+    doc = pdfread.parse(pdf)
+    out = []
+    for where, num, data, res in doc.walk_content_streams():
+        out.append((where, data))
+    other = []
+    for num, obj in sorted(doc.objects.items()):
+        if isinstance(obj, pdfread.StreamObj) and obj.dict.get('Type') not in ('XRef', 'ObjStm') \
+                and obj.dict.get('Subtype') != 'OpenType' and 'Length1' not in obj.dict:    # font programs carry a date
+            other.append((num, obj.dict.get('Type'), obj.dict.get('Subtype'), doc.stream_data(obj)))
+    return doc, out, other
+
+
+def compare_twins(pdf_a, pdf_b):
+    """compressed and uncompressed output decode to the same streams"""
+    bad = []
+    da, ca, oa = _streams_of(pdf_a)
+    db, cb_, ob = _streams_of(pdf_b)
+    if [w for w, _ in ca] != [w for w, _ in cb_]:
+        bad.append(('twin-streams', 'content stream sets differ: %s vs %s' % ([w for w, _ in ca][:8], [w for w, _ in cb_][:8])))
+    for (w, x), (_, y) in zip(ca, cb_):
+        if x != y:
+            bad.append(('twin-streams', '%s decodes differently with and without compression' % w))
+            break
+    if len(oa) != len(ob):
+        bad.append(('twin-streams', '%d stream objects vs %d' % (len(oa), len(ob))))
+    else:
+        for (n1, t1, s1, d1), (n2, t2, s2, d2) in zip(oa, ob):
+            if (t1, s1) != (t2, s2) or d1 != d2:
+                bad.append(('twin-streams', 'stream object %s/%s (%s %s) decodes differently with and without compression' % (n1, n2, t1, s1)))
+                break
+    return bad
+
+
+# ------------------------------------------------------------------- recorded traces -> Coq (trace_judge)
+
+def tkey(k):
+    if k[0] == 'KA':
+        return '(KA %s %s %s)' % (cb(k[1]), zlit(k[2]), cb(k[3]))
+    return '(KS %s)' % zlit(k[1])
+
+
+def tcol(c):
+    return '(%s, %s)' % (zlit(c[0]), zlit(c[1]))
+
+
+def tcop(o):
+    k = o[0]
+    if k in ('push', 'pop', 'bt', 'et', 'emc'):
+        return {'push': 'Push', 'pop': 'Pop', 'bt': 'BeginText', 'et': 'EndText', 'emc': 'EndMC'}[k]
+    if k == 'color':
+        return '(SetColor %s %s %s %s)' % (cb(o[1]), tcol(o[2]), zlit(o[3]), cb(o[4]))
+    if k == 'alpha':
+        return '(SetAlpha %s %s %s %s)' % (zlit(o[1]), cb(o[2]), cb(o[3]), copt(o[4], cb))
+    if k == 'font':
+        return '(SetFont (%s, %s))' % (zlit(o[1]), zlit(o[2]))
+    if k == 'state':
+        return '(SetState %s %s)' % (copt(o[1], zlit), copt(o[2], zlit))
+    if k == 'pattern':
+        return '(PatternColor %s %s)' % (cb(o[1]), zlit(o[2]))
+    if k == 'cm':
+        return '(Transform (1, 0, 0, 1, %s, 0))' % zlit(o[1])
+    if k == 'tm':
+        return '(TextMatrix (1, 0, 0, 1, %s, 0))' % zlit(o[1])
+    if k == 'bmc':
+        return '(BeginMC %s)' % cb(o[1])
+    if k == 'tok':
+        return '(Tok %s)' % zlit(o[1])
+    if k == 'xstate':
+        return '(ExtState %s)' % cgsval(o[1], o[2])
+    if k == 'xalpha':
+        return '(ExtAlpha %s %s %s)' % (cb(o[1]), zlit(o[2]), cb(o[3]))
+    raise ValueError(o)
+
+
+def tctok(t):
+    k = t[0]
+    if k in ('q', 'Q', 'BT', 'ET', 'BMC', 'BDC', 'EMC'):
+        return 'T' + k
+    if k == 'gs':
+        return '(Tgs %s %s)' % (tkey(t[1]), cgsval(t[2], t[3]))
+    if k == 'rg':
+        return '(Trg %s %s)' % (cb(t[1]), tcol(t[2]))
+    if k == 'scn':
+        return '(Tscn %s %s)' % (cb(t[1]), tcol(t[2]))
+    if k == 'cs':
+        return '(Tcs %s %s)' % (cb(t[1]), zlit(t[2]))
+    if k == 'pat':
+        return '(Tpat %s %s)' % (cb(t[1]), zlit(t[2]))
+    if k == 'Tf':
+        return '(Tfont (%s, %s))' % (zlit(t[1]), zlit(t[2]))
+    if k == 'cm':
+        return '(Tcm (1, 0, 0, 1, %s, 0))' % zlit(t[1])
+    if k == 'Tm':
+        return '(Ttm (1, 0, 0, 1, %s, 0))' % zlit(t[1])
+    if k == 'tag':
+        return 'Ttag'
+    if k == 'props':
+        return '(Tprops %s)' % zlit(t[1])
+    if k == 'other':
+        return '(Tother %s)' % zlit(t[1])
+    raise ValueError(t)
+
+
+def ctrace(tr):
+    d0 = clist('(%s, %s)' % (tkey(k[:-2]), cgsval(k[-2], k[-1])) for k in tr['keys0'])
+    return '(%s, %s, %s, %s)' % (cb(tr['mark']), d0, clist(tcop(o) for o in tr['ops']), clist(tctok(t) for t in tr['toks']))
+
+
+TRACE_T = 'bool * egsd * list op * list tok'
+UNMODELLED = ('list-replaced', 'foreign-append', 'nonempty-at-start', 'odd-item')
+
+
+# =============================================================== AST pass: the draw calls are well bracketed
+import ast
+
+OPEN = {'push_state': 'q', 'begin_text': 't', 'begin_marked_content': 'm'}
+CLOSE = {'pop_state': 'q', 'end_text': 't', 'end_marked_content': 'm'}
+AST_FILES = ['draw/*.py', 'pdf/*.py', 'document.py', 'images.py', 'svg/*.py']
+
+
+def _key(node):
+    """name of an lvalue/receiver, independent of Load/Store context"""
+    if isinstance(node, ast.Name):
+        return node.id
+    if isinstance(node, ast.Attribute):
+        return _key(node.value) + '.' + node.attr
+    if isinstance(node, ast.Subscript):
+        return _key(node.value) + '[' + ast.dump(node.slice, annotate_fields=False) + ']'
+    return ast.dump(node, annotate_fields=False)
+
+
+def _dump(node):
+    return ast.dump(node, annotate_fields=False)
+
+
+def _is_bracket_call(c):
+    return isinstance(c, ast.Call) and isinstance(c.func, ast.Attribute) and (c.func.attr in OPEN or c.func.attr in CLOSE)
+
+
+def _own_nodes(fn):
+    """nodes of a function body without the bodies of nested function definitions"""
+    todo = list(fn.body)
+    while todo:
+        n = todo.pop()
+        yield n
+        for c in ast.iter_child_nodes(n):
+            if not isinstance(c, (ast.FunctionDef, ast.AsyncFunctionDef, ast.ClassDef, ast.Lambda)):
+                todo.append(c)
+
+
+class _State(object):
+    """abstract state on one path: open brackets, identity of the receivers, known truth values of conditions"""
+    __slots__ = ('stack', 'env', 'lists', 'facts')
+
+    def __init__(self, stack=(), env=None, lists=None, facts=None):
+        self.stack, self.env, self.lists, self.facts = tuple(stack), dict(env or {}), dict(lists or {}), dict(facts or {})
+
+    def copy(self):
+        return _State(self.stack, self.env, self.lists, self.facts)
+
+    def key(self):
+        return (self.stack, tuple(sorted(self.env.items())), tuple(sorted((k, tuple(v)) for k, v in self.lists.items())),
+                tuple(sorted((k, v[0]) for k, v in self.facts.items())))
+
+
+class BracketChecker(object):
+    """Path-sensitive check of one function: every push_state/begin_text/begin_marked_content is closed by the
+    matching call on the same object on every path (return, continue, break included), or is a `with stacked()`.
+    Identical conditions tested several times in a function are correlated, boolean flags are followed; receivers
+    are compared by abstract identity (`a = b` copies it, any other assignment makes a new one,
+    list.append / list.pop() / list[-1] follow it).  Exceptions are not paths here (see `swallow`)."""
+
+    def __init__(self, path, func):
+        self.path, self.func = path, func
+        self.problems = []
+        self.swallow = []
+        nodes = list(_own_nodes(func))
+        self.receivers = {_key(n.func.value) for n in nodes if _is_bracket_call(n)}
+        # names whose identity matters: receivers, their aliases, the lists they are saved in
+        self.tracked_names = set(self.receivers)
+        changed = True
+        while changed:
+            changed = False
+            for n in nodes:
+                if isinstance(n, ast.Assign) and isinstance(n.value, (ast.Name, ast.Attribute, ast.Subscript)):
+                    ks = {_key(t) for t in n.targets if isinstance(t, (ast.Name, ast.Attribute))}
+                    v = _key(n.value.value) if isinstance(n.value, ast.Subscript) else _key(n.value)
+                    if (ks & self.tracked_names and v not in self.tracked_names) or (v in self.tracked_names and not ks <= self.tracked_names):
+                        self.tracked_names |= ks | {v}
+                        changed = True
+                if isinstance(n, ast.Assign) and isinstance(n.value, ast.Call) and isinstance(n.value.func, ast.Attribute) \
+                        and n.value.func.attr == 'pop' and _key(n.value.func.value) in self.tracked_names:
+                    ks = {_key(t) for t in n.targets if isinstance(t, (ast.Name, ast.Attribute))}
+                    if not ks <= self.tracked_names:
+                        self.tracked_names |= ks
+                        changed = True
+                if isinstance(n, ast.Call) and isinstance(n.func, ast.Attribute) and n.func.attr == 'append' and len(n.args) == 1 \
+                        and isinstance(n.args[0], (ast.Name, ast.Attribute)) and _key(n.args[0]) in self.tracked_names \
+                        and _key(n.func.value) not in self.tracked_names:
+                    self.tracked_names.add(_key(n.func.value))
+                    changed = True
+        # conditions worth remembering: tested more than once; boolean flags (names assigned True/False)
+        counts = {}
+        for n in nodes:
+            if isinstance(n, (ast.If, ast.While, ast.IfExp)):
+                for t in ([n.test] + (n.test.values if isinstance(n.test, ast.BoolOp) else [])):
+                    counts[_dump(t)] = counts.get(_dump(t), 0) + 1
+        self.flags = {t.id for n in nodes if isinstance(n, ast.Assign) and isinstance(n.value, ast.Constant)
+                      and isinstance(n.value.value, bool) for t in n.targets if isinstance(t, ast.Name)}
+        self.tracked_conds = {d for d, c in counts.items() if c > 1}
+        self.assigned_attrs = set()
+
+    def relevant(self):
+        return bool(self.receivers)
+
+    # ---- helpers
+    def problem(self, node, msg):
+        p = (self.path, self.func.name, getattr(node, 'lineno', 0), msg)
+        if p not in self.problems:
+            self.problems.append(p)
+
+    def ident(self, st, expr):
+        k = _key(expr)
+        if k in st.env:
+            return st.env[k]
+        if isinstance(expr, ast.Subscript) and isinstance(expr.slice, ast.UnaryOp) and isinstance(expr.slice.op, ast.USub) \
+                and isinstance(expr.slice.operand, ast.Constant) and expr.slice.operand.value == 1:
+            l = st.lists.get(_key(expr.value))
+            if l:
+                return l[-1]
+        return 'init:' + k
+
+    def new_id(self, node):
+        return 'new@%d:%d' % (getattr(node, 'lineno', 0), getattr(node, 'col_offset', 0))
+
+    def assign(self, st, target, value_id, node):
+        if isinstance(target, (ast.Tuple, ast.List)):
+            for t in target.elts:
+                self.assign(st, t, self.new_id(t), node)
+            return
+        if isinstance(target, ast.Starred):
+            return self.assign(st, target.value, self.new_id(target), node)
+        k = _key(target)
+        if isinstance(target, ast.Attribute) and k in self.receivers:
+            self.assigned_attrs.add(k)
+        if k in self.tracked_names:
+            st.env[k] = value_id
+        for other in list(st.env):
+            if other.startswith(k + '.'):                           # x = ... invalidates x.attr
+                del st.env[other]
+        base = k.split('.')[0].split('[')[0]
+        for f in list(st.facts):
+            if k in st.facts[f][1] or base in st.facts[f][1]:
+                del st.facts[f]
+
+    def calls_in(self, node):
+        out = [n for n in ast.walk(node) if isinstance(n, ast.Call) and isinstance(n.func, ast.Attribute)]
+        return sorted(out, key=lambda n: (n.lineno, n.col_offset))
+
+    def do_calls(self, st, node):
+        for c in self.calls_in(node):
+            name = c.func.attr
+            if name in OPEN:
+                st.stack = st.stack + ((OPEN[name], self.ident(st, c.func.value), c.lineno),)
+            elif name in CLOSE:
+                rid = self.ident(st, c.func.value)
+                if not st.stack or st.stack[-1][0] == 'with':
+                    self.problem(c, '%s() without a matching opening call in this function' % name)
+                elif st.stack[-1][0] != CLOSE[name]:
+                    self.problem(c, '%s() closes a %s opened at line %d' % (name, st.stack[-1][0], st.stack[-1][2]))
+                    st.stack = st.stack[:-1]
+                elif st.stack[-1][1] != rid:
+                    self.problem(c, '%s() is called on another object (%s) than the opening call of line %d (%s)'
+                                 % (name, rid, st.stack[-1][2], st.stack[-1][1]))
+                    st.stack = st.stack[:-1]
+                else:
+                    st.stack = st.stack[:-1]
+            elif name == 'append' and len(c.args) == 1 and _key(c.func.value) in self.tracked_names:
+                st.lists[_key(c.func.value)] = st.lists.get(_key(c.func.value), []) + [self.ident(st, c.args[0])]
+
+    def check_exit(self, st, node, what):
+        opened = [e for e in st.stack if e[0] != 'with']
+        if opened:
+            self.problem(node, '%s with %s still open (opened at line %s)' % (
+                what, '/'.join({'q': 'push_state', 't': 'begin_text', 'm': 'begin_marked_content'}[e[0]] for e in opened),
+                ','.join(str(e[2]) for e in opened)))
+
+    # ---- statements: list of (state, how) with how in normal|return|break|continue
+    def block(self, stmts, states):
+        out_other = []
+        cur = states
+        for s in stmts:
+            nxt, seen = [], set()
+            for st in cur:
+                for st2, how in self.stmt(s, st):
+                    if how == 'normal':
+                        k = st2.key()
+                        if k not in seen:
+                            seen.add(k)
+                            nxt.append(st2)
+                    else:
+                        out_other.append((st2, how))
+            cur = nxt
+            if len(cur) > 2000:
+                self.problem(s, 'analysis gave up: too many paths')
+                cur = cur[:20]
+        seen, uniq = set(), []
+        for st2, how in out_other:
+            k = (st2.key(), how)
+            if k not in seen:
+                seen.add(k)
+                uniq.append((st2, how))
+        return [(st, 'normal') for st in cur] + uniq
+
+    def cond(self, st, test):
+        """[(state, truth)] for the outcomes of a test that are possible in `st`"""
+        d = _dump(test)
+        if isinstance(test, ast.UnaryOp) and isinstance(test.op, ast.Not):
+            return [(s2, not v) for s2, v in self.cond(st, test.operand)]
+        if isinstance(test, ast.Constant):
+            return [(st, bool(test.value))]
+        if d in st.facts:
+            return [(st, st.facts[d][0])]
+        names = frozenset({n.id for n in ast.walk(test) if isinstance(n, ast.Name)} |
+                          {_key(n) for n in ast.walk(test) if isinstance(n, ast.Attribute)})
+        if isinstance(test, ast.BoolOp) and isinstance(test.op, ast.And):
+            outs = [(st, True)]
+            for operand in test.values:
+                nxt = []
+                for s2, v in outs:
+                    if not v:
+                        nxt.append((s2, False))
+                    else:
+                        nxt.extend(self.cond(s2, operand))
+                outs = nxt
+            res = []
+            for s2, v in outs:
+                if d in self.tracked_conds:
+                    s2 = s2.copy()
+                    s2.facts[d] = (v, names)
+                res.append((s2, v))
+            return res
+        if d in self.tracked_conds or (isinstance(test, ast.Name) and test.id in self.flags):
+            a, b = st.copy(), st.copy()
+            a.facts[d] = (True, names)
+            b.facts[d] = (False, names)
+            return [(a, True), (b, False)]
+        return [(st, True), (st.copy(), False)]
+
+    def stmt(self, s, st):
+        st = st.copy()
+        if isinstance(s, (ast.FunctionDef, ast.AsyncFunctionDef, ast.ClassDef, ast.Import, ast.ImportFrom, ast.Pass,
+                          ast.Global, ast.Nonlocal)):
+            return [(st, 'normal')]
+        if isinstance(s, ast.Return):
+            if s.value is not None:
+                self.do_calls(st, s.value)
+            self.check_exit(st, s, 'return')
+            return [(st, 'return')]
+        if isinstance(s, ast.Raise):
+            return []
+        if isinstance(s, (ast.Break, ast.Continue)):
+            return [(st, 'break' if isinstance(s, ast.Break) else 'continue')]
+        if isinstance(s, ast.Assign):
+            self.do_calls(st, s.value)
+            v = s.value
+            if isinstance(v, (ast.Name, ast.Attribute)) or (isinstance(v, ast.Subscript) and self.ident(st, v) != 'init:' + _key(v)):
+                vid = self.ident(st, v)
+            elif isinstance(v, ast.Call) and isinstance(v.func, ast.Attribute) and v.func.attr == 'pop' and not v.args \
+                    and st.lists.get(_key(v.func.value)):
+                l = st.lists[_key(v.func.value)]
+                vid = l[-1]
+                st.lists[_key(v.func.value)] = l[:-1]
+            else:
+                vid = self.new_id(s)
+            for t in s.targets:
+                self.assign(st, t, vid, s)
+                if isinstance(t, ast.Name) and t.id in self.flags and isinstance(v, ast.Constant) and isinstance(v.value, bool):
+                    st.facts[_dump(ast.Name(t.id, ast.Load()))] = (v.value, frozenset([t.id]))
+            return [(st, 'normal')]
+        if isinstance(s, (ast.AugAssign, ast.AnnAssign)):
+            if s.value is not None:
+                self.do_calls(st, s.value)
+            self.assign(st, s.target, self.new_id(s), s)
+            return [(st, 'normal')]
+        if isinstance(s, ast.Expr):
+            v = s.value
+            if isinstance(v, ast.Call) and isinstance(v.func, ast.Attribute) and v.func.attr == 'pop' and not v.args \
+                    and st.lists.get(_key(v.func.value)):
+                st.lists[_key(v.func.value)] = st.lists[_key(v.func.value)][:-1]
+            self.do_calls(st, v)
+            return [(st, 'normal')]
+        if isinstance(s, ast.If):
+            self.do_calls(st, s.test)
+            out = []
+            for s2, truth in self.cond(st, s.test):
+                out.extend(self.block(s.body if truth else s.orelse, [s2]))
+            return out
+        if isinstance(s, (ast.For, ast.AsyncFor, ast.While)):
+            self.do_calls(st, s.test if isinstance(s, ast.While) else s.iter)
+            entry = st.copy()
+            body_st = st.copy()
+            if not isinstance(s, ast.While):
+                self.assign(body_st, s.target, self.new_id(s), s)
+            assigned = set()
+            for n in ast.walk(s):
+                if isinstance(n, (ast.Assign, ast.AugAssign, ast.AnnAssign, ast.For)):
+                    for t in (n.targets if isinstance(n, ast.Assign) else [n.target]):
+                        for x in ast.walk(t):
+                            if isinstance(x, ast.Name):
+                                assigned.add(x.id)
+            for f in list(body_st.facts):
+                if body_st.facts[f][1] & assigned:
+                    del body_st.facts[f]
+            exits = []
+            rebound = set()
+            for s2, how in self.block(s.body, [body_st]):
+                if how == 'return':
+                    exits.append((s2, how))
+                    continue
+                if s2.stack != entry.stack:
+                    self.problem(s, 'loop body (%s) changes the open brackets: %r -> %r' % (how, entry.stack, s2.stack))
+                for k in self.tracked_names:
+                    if s2.env.get(k, 'init:' + k) != entry.env.get(k, 'init:' + k):
+                        rebound.add(k)
+            after = entry.copy()
+            for k in rebound:                       # identity unknown after the loop
+                after.env[k] = 'loop@%d:%s' % (s.lineno, k)
+            for f in list(after.facts):
+                if after.facts[f][1] & assigned:
+                    del after.facts[f]
+            out = self.block(s.orelse, [after]) if s.orelse else [(after, 'normal')]
+            return out + exits
+        if isinstance(s, (ast.With, ast.AsyncWith)):
+            marks = 0
+            for item in s.items:
+                ce = item.context_expr
+                if isinstance(ce, ast.Call) and isinstance(ce.func, ast.Name) and ce.func.id == 'stacked':
+                    st.stack = st.stack + (('with', self.ident(st, ce.args[0]) if ce.args else '?', s.lineno),)
+                    marks += 1
+                else:
+                    self.do_calls(st, ce)
+                if isinstance(ce, ast.Call) and isinstance(ce.func, ast.Name) and ce.func.id == 'suppress':
+                    if any(isinstance(n, ast.Call) for b in s.body for n in ast.walk(b)):
+                        site = (self.path, self.func.name, s.lineno, 'with suppress(%s) around calls' % ', '.join(_key(a) for a in ce.args))
+                        if site not in self.swallow:
+                            self.swallow.append(site)
+                if item.optional_vars is not None:
+                    self.assign(st, item.optional_vars, self.new_id(s), s)
+            out = []
+            for s2, how in self.block(s.body, [st]):
+                if marks:
+                    if how == 'normal' and s2.stack != st.stack:
+                        self.problem(s, 'body of `with stacked` leaves brackets open: %r' % (s2.stack[len(st.stack):],))
+                    if how in ('break', 'continue') and [e for e in s2.stack[len(st.stack):] if e[0] != 'with']:
+                        self.problem(s, '%s out of `with stacked` with brackets open' % how)
+                    if how != 'return':
+                        s2.stack = st.stack[:len(st.stack) - marks]
+                out.append((s2, how))
+            return out
+        if isinstance(s, ast.Try):
+            swallowing = [h for h in s.handlers if not any(isinstance(n, ast.Raise) for b in h.body for n in ast.walk(b))]
+            if swallowing and any(isinstance(n, ast.Call) and isinstance(n.func, ast.Attribute) and
+                                  (n.func.attr in OPEN or n.func.attr == 'draw') for b in s.body for n in ast.walk(b)):
+                site = (self.path, self.func.name, s.lineno, 'try/except %s without re-raise around drawing calls' % ', '.join(
+                    _key(h.type) if h.type is not None else 'everything' for h in swallowing))
+                if site not in self.swallow:
+                    self.swallow.append(site)
+            out = []
+            for s2, how in self.block(s.body, [st]):
+                if how == 'normal' and s.orelse:
+                    out.extend(self.block(s.orelse, [s2]))
+                else:
+                    out.append((s2, how))
+            for h in s.handlers:
+                out.extend(self.block(h.body, [st.copy()]))
+            if s.finalbody:
+                fin = []
+                for s2, how in out:
+                    for s3, how3 in self.block(s.finalbody, [s2]):
+                        fin.append((s3, how if how3 == 'normal' else how3))
+                out = fin
+            return out
+        self.do_calls(st, s)
+        return [(st, 'normal')]
+
+    def run(self):
+        for n in _own_nodes(self.func):
+            pass
+        for n in ast.walk(self.func):
+            if isinstance(n, (ast.Lambda, ast.ListComp, ast.SetComp, ast.DictComp, ast.GeneratorExp)):
+                for c in ast.walk(n):
+                    if _is_bracket_call(c):
+                        self.problem(c, 'bracket call inside a lambda/comprehension is not analysed')
+        results = self.block(list(self.func.body), [_State()])
+        for st, how in results:
+            if how == 'normal':
+                self.check_exit(st, self.func.body[-1], 'end of function')
+            if how in ('normal', 'return'):
+                for k in self.assigned_attrs:
+                    if st.env.get(k, 'init:' + k) != 'init:' + k and self.reads_before_assign(k):
+                        self.problem(self.func, 'receiver %s is not restored at exit' % k)
+        return self.problems
+
+    def reads_before_assign(self, k):
+        """the first statement that mentions the attribute does not simply assign it: it is state of the caller"""
+        for s in self.func.body:
+            for n in ast.walk(s):
+                if isinstance(n, ast.Attribute) and _key(n) == k:
+                    return not (isinstance(s, ast.Assign) and any(_key(t) == k for t in s.targets)
+                                and not any(isinstance(x, ast.Attribute) and _key(x) == k for x in ast.walk(s.value)))
+        return False
+
+
+def ast_pass(repo):
+    """Returns (problems, swallow sites, stats)."""
+    import glob
+    problems, swallow = [], []
+    stats = {'files': 0, 'functions': 0, 'with_stacked': 0, 'open_calls': 0, 'close_calls': 0, 'functions_checked': 0}
+    for pat in AST_FILES:
+        for path in sorted(glob.glob(os.path.join(repo, 'weasyprint', pat))):
+            rel = os.path.relpath(path, repo)
+            try:
+                tree = ast.parse(open(path).read(), path)
+            except SyntaxError as exc:
+                problems.append((rel, '<module>', 0, 'cannot parse: %s' % exc))
+                continue
+            stats['files'] += 1
+            for n in ast.walk(tree):
+                if isinstance(n, ast.With):
+                    stats['with_stacked'] += sum(1 for i in n.items if isinstance(i.context_expr, ast.Call) and
+                                                 isinstance(i.context_expr.func, ast.Name) and i.context_expr.func.id == 'stacked')
+                if isinstance(n, ast.Call) and isinstance(n.func, ast.Attribute):
+                    stats['open_calls'] += n.func.attr in OPEN
+                    stats['close_calls'] += n.func.attr in CLOSE
+            # exceptions swallowed around drawing calls, wherever they are (SVGImage.draw)
+            for fn in ast.walk(tree):
+                if isinstance(fn, (ast.FunctionDef, ast.AsyncFunctionDef)):
+                    for n in _own_nodes(fn):
+                        if isinstance(n, ast.Try):
+                            sw = [h for h in n.handlers if not any(isinstance(x, ast.Raise) for b in h.body for x in ast.walk(b))]
+                            draws = [x for b in n.body for x in ast.walk(b) if isinstance(x, ast.Call) and isinstance(x.func, ast.Attribute)
+                                     and (x.func.attr in OPEN or x.func.attr in ('draw', 'draw_node', 'paint'))]
+                            if sw and draws:
+                                site = (rel, fn.name, n.lineno, 'try/except %s without re-raise around %s()' % (
+                                    ', '.join(_key(h.type) if h.type is not None else 'everything' for h in sw), draws[0].func.attr))
+                                if site not in swallow:
+                                    swallow.append(site)
+            for n in tree.body:
+                if not isinstance(n, (ast.FunctionDef, ast.AsyncFunctionDef, ast.ClassDef)):
+                    for c in ast.walk(n):
+                        if _is_bracket_call(c):
+                            problems.append((rel, '<module>', c.lineno, 'bracket call at module level'))
+            for fn in ast.walk(tree):
+                if isinstance(fn, (ast.FunctionDef, ast.AsyncFunctionDef)):
+                    stats['functions'] += 1
+                    if rel.endswith('pdf/stream.py') and (fn.name in OPEN or fn.name in CLOSE):
+                        continue           # the primitives themselves: super().push_state() ...
+                    ck = BracketChecker(rel, fn)
+                    if not ck.relevant():
+                        continue
+                    stats['functions_checked'] += 1
+                    problems.extend(ck.run())
+                    swallow.extend(x for x in ck.swallow if x not in swallow)
+    return problems, swallow, stats
+
+
+# ======================================================================================== the check itself
+
+# Defects confirmed on the unchanged tree and reported (see the final report of the C16 builder).  A signature listed
+# in known_findings.json (status open) is handled by common.Run.fail; this local list keeps the check at exit 0
+# until the entries are moved there or the defects are fixed in /repo.  Nothing is ever added at run time.
+LOCAL_KNOWN = {
+    'F12:skip-not-redundant': 'an operator installed behind the colour/alpha cache (set_state with /ca, Pattern colour) makes a skipped operator non-redundant',
+    'F28:svg-exception-swallowed': 'SVGImage.draw swallows an exception raised while drawing: the content stream keeps the q/BT opened so far',
+    'F29:ast:weasyprint/draw/__init__.py:draw_stacking_context:71': 'end_marked_content() on the opacity group instead of the stream where begin_marked_content() was called (pdf/ua-1)',
+}
+
+WITNESSES = {
+    # name: (signature, case)
+    'F12-mask-border': ('F12:skip-not-redundant', {
+        'html': '<style>@page{size:100px;margin:0}body{font-family:weasyprint;font-size:10px;margin:0}</style>'
+                '<p style="color:rgba(0,0,0,.5)">ab<span style="mask-border: url(pattern.png) 1; background: rgba(0,0,255,.5)">cd</span></p>',
+        'options': {'uncompressed_pdf': True}, 'record': True}),
+    'F28-svg-marker': ('F28:svg-exception-swallowed', {
+        'html': '<style>@page{size:100px;margin:0}</style><img src="data:image/svg+xml,<svg xmlns=\'http://www.w3.org/2000/svg\' width=\'40\' height=\'40\'>'
+                '<defs><marker id=\'k\' markerWidth=\'6\' markerHeight=\'6\' orient=\'auto\'><circle cx=\'3\' cy=\'3\' r=\'2\'/></marker></defs>'
+                '<path d=\'M 1 1\' marker-end=\'url(%23k)\'/></svg>">', 'options': {'uncompressed_pdf': True}, 'record': True}),
+    'F29-ua-opacity-scale0': ('F29:ast:weasyprint/draw/__init__.py:draw_stacking_context:71', {
+        'html': '<style>@page{size:100px;margin:0}body{font-family:weasyprint;font-size:10px;margin:0}</style>'
+                '<div style="opacity:.5;transform:scale(0)">abc</div>', 'options': {'pdf_variant': 'pdf/ua-1'}, 'record': True}),
+}
+
+
+def report(run, what, data, signature):
+    """a concrete failing input: VIOLATION unless it is a registered (or locally acknowledged) known finding"""
+    if any(k.get('signature') == signature for k in run.known):
+        return run.fail(what, data, signature)
+    if signature in LOCAL_KNOWN:
+        run.known_hits.append(({'signature': signature, 'what': LOCAL_KNOWN[signature]}, what))
+        return False
+    return run.fail(what, data, signature)
+
+
+def classify_doc(run, case, st, o, stream):
+    """turn one render outcome into failures; returns the verdict dict or None"""
+    small = {'stream': stream, 'html': case['html'], 'options': case.get('options'), 'zoom': case.get('zoom', 1),
+             'expect': case.get('expect')}
+    if st == 'timeout':
+        run.fail('render timeout', small, signature='timeout')
+        return None
+    if st == 'exc':
+        run.fail('render raised %s at %s: %s' % (o['type'], o['site'], o['msg'][:120]), dict(small, exc=o),
+                 signature='crash:%s' % (o['site'],))
+        return None
+    for site in o.get('swallowed') or []:
+        report(run, 'an exception raised while drawing an SVG was swallowed (%s): what was drawn so far stays in the stream' % site,
+               dict(small, site=site), 'F28:svg-exception-swallowed')
+    swallowed = bool(o.get('swallowed'))
+    for clause, detail in o['bad'][:3]:
+        if swallowed and clause.startswith(('balance', 'nest', 'special-gs', 'text-op')):
+            continue                      # consequence of the swallowed exception, reported above
+        run.fail('PDF not well formed: %s: %s' % (clause, detail), dict(small, clause=clause, detail=detail),
+                 signature='pdf:%s' % clause)
+    return o
+
+
+def judge_traces(run, docs, tag):
+    """docs: [(case, verdict)] with verdict['traces'].  Evaluates trace_judge in Coq."""
+    items = []
+    skipped = {}
+    for ci, (case, o) in enumerate(docs):
+        for tr in o.get('traces') or []:
+            flags = [f for f in tr['flags'] if f in UNMODELLED or f.startswith(('unmodelled', 'raised'))]
+            if flags or len(tr['ops']) > 3000:
+                for f in (flags or ['too-long']):
+                    skipped[f] = skipped.get(f, 0) + 1
+                continue
+            items.append((ci, tr))
+    masks = common.eval_cases(tag, PRE, TRACE_T, [ctrace(tr) for _, tr in items], 'trace_judge', per_file=60) if items else []
+    return items, masks, skipped
+
+
+def check(run):
+    rng = random.Random(run.seed * 7919 + 16)
+    thorough = run.tier == 'thorough'
+    common.prove(run, 'C16', ['model/C16Stream.vo'])
+    run.trusted += ['Coq 8.16.1 kernel (coqc); vm_compute for the cases.v evaluation',
+                    'harness/pdfread.py (independent PDF reader, ISO 32000-1 Annex A operator table) and the judges of harness/p_c16.py (Python)',
+                    'harness/impl_c16.py: decoding of Stream.stream items into model tokens; the call recorder (wraps the methods of weasyprint.pdf.stream.Stream in the worker process)',
+                    'pydyf (not in the repository): its one-item-per-call emitters are exercised as `Tok k`; file syntax (header, xref, trailer) is monitored, not modelled']
+    run.assumptions += ['no exception is swallowed between a paired push_state/pop_state or begin_text/end_text (the AST pass lists the two places where one is: SVGImage.draw and suppress(PointError) in svg draw_node; finding F28)',
+                        'content of fonts, images and attachments is judged by decodability only (font tables: C16 partial)',
+                        'reference interpreter: fill/stroke colour, alpha constants, font, CTM, text matrix, q/Q stack; dash, line width, clip, blend mode and soft mask are not cached by Stream and therefore not part of skip soundness']
+
+    # ---- stream 1: direct calls on a real Stream vs the Coq model (all sequences: well bracketed or not)
+    try:
+        kept, masks = check_stream_direct(run, rng, 2400 if thorough else 480)
+        mism = [(c, o) for (c, o), m in zip(kept, masks) if m & 1]
+        run.oblige('corr:stream-direct(model = weasyprint.pdf.stream.Stream on %d call sequences)' % len(kept), not mism,
+                   'first disagreements: %s' % json.dumps([{'case': c, 'impl': {k: v for k, v in o.items() if k != 'bytes'}} for c, o in mism[:2]])[:3000])
+        for (c, o), m in zip(kept, masks):
+            if m & 2:
+                run.fail('well-bracketed calls gave unbalanced tokens on the real Stream', {'stream': 'stream-direct', 'case': c, 'impl': o}, signature='stream:unbalanced')
+                break
+        for (c, o), m in zip(kept, masks):
+            if m & 4:
+                run.fail('guarded calls: a skipped operator was not redundant on the real Stream', {'stream': 'stream-direct', 'case': c, 'impl': o}, signature='stream:skip-unsound')
+                break
+        nf12 = sum(1 for m in masks if m & 8)
+        for (c, o), m in zip(kept, masks):
+            if m & 8:
+                report(run, 'a skipped operator was not redundant (operator installed behind the cache)', {'stream': 'stream-direct', 'case': c, 'bytes': o.get('bytes', '')[:2000]}, 'F12:skip-not-redundant')
+                break
+        run.count('stream-direct', len(kept), [(tuple(map(tuple, [x[:2] for x in c['ops'][:6]])), len(c['ops']), c['mark']) for c, _ in kept],
+                  samples=[{'case': kept[3][0], 'impl_bytes': kept[3][1].get('bytes', '')[:300]}])
+        run.stream_info('stream-direct', raised=sum(1 for _, o in kept if 'raised' in o), unguarded_and_different=nf12,
+                        well_bracketed=sum(1 for c, _ in kept if _wb(c['ops'])),
+                        peephole_qQ=sum(1 for c, _ in kept if _has_pair(c['ops'], 'push', 'pop')),
+                        peephole_ETBT=sum(1 for c, _ in kept if _has_pair(c['ops'], 'et', 'bt')),
+                        rule='random call sequences on a fresh Stream: 80% well bracketed (nested push/pop, begin/end_text, '
+                             'begin/end_marked_content), biased to empty q..Q, ET-BT adjacency, few colours/alphas (cache hits), '
+                             'raw gs/Pattern operators; all items, ctm stack, caches, ExtGState dictionary compared')
+    except RuntimeError as exc:
+        run.oblige('corr:stream-direct', False, str(exc))
+
+    # ---- stream 2: AST pass = premise of the bracket theorem for the real call sites
+    problems, swallow, stats = ast_pass(common.REPO)
+    genuine = []
+    for pr in problems:
+        sig = 'F29:ast:%s:%s:%d' % (pr[0], pr[1], pr[2])
+        if sig in LOCAL_KNOWN or any(k.get('signature') == sig for k in run.known):
+            report(run, 'AST: %s %s line %d: %s' % pr, {'stream': 'ast', 'problem': list(pr)}, sig)
+        else:
+            genuine.append(pr)
+    run.oblige('shape:draw-calls-bracketed', not genuine and stats['open_calls'] + stats['with_stacked'] >= 20,
+               'problems: %s ; stats: %s' % (genuine[:5], stats))
+    run.count('ast', stats['functions_checked'], [('fn', i) for i in range(stats['functions_checked'])])
+    run.stream_info('ast', rule='abstract interpretation of every function of draw/, pdf/, svg/, document.py, images.py that calls '
+                                'push_state/begin_text/begin_marked_content or their closers: all paths, receivers by identity, '
+                                'correlated conditions', exception_swallowing_sites=[list(x) for x in swallow], **stats)
+
+    # ---- stream 3: known-defect witnesses (replayed; tell whether they still reproduce)
+    wit_cases = [dict(c, keep_pdf=False) for _, (_, c) in sorted(WITNESSES.items())]
+    wouts = common.run_impl('impl_c16', 'render_pdf', wit_cases, limit=60, chunksize=1)
+    witness_state = {}
+    wdocs = []
+    for (name, (sig, case)), (st, o) in zip(sorted(WITNESSES.items()), wouts):
+        reproduced = False
+        if st == 'ok':
+            if o.get('swallowed'):
+                reproduced = True
+                report(run, 'witness %s: exception swallowed while drawing an SVG (%s)' % (name, o['swallowed'][0]), {'stream': 'witness', 'name': name, 'html': case['html'], 'options': case['options']}, sig)
+            elif o['bad']:
+                reproduced = True
+                report(run, 'witness %s: %s' % (name, o['bad'][0]), {'stream': 'witness', 'name': name, 'html': case['html'], 'options': case['options']}, sig)
+            wdocs.append((case, o, name, sig))
+        else:
+            run.fail('witness %s: render failed: %s' % (name, o), {'stream': 'witness', 'name': name, 'html': case['html'], 'options': case['options']}, signature='crash:%s' % (o and o.get('site'),))
+        witness_state[name] = reproduced
+
+    # ---- stream 4: monitor over the document grammar x options
+    ndocs = 1600 if thorough else 230
+    cases = []
+    for i in range(ndocs):
+        opts, zoom = gen_options(rng)
+        html, exp = gen_doc(rng, opts)
+        cases.append({'html': html, 'options': opts, 'zoom': zoom, 'expect': exp, 'record': i % 3 == 0, 'twin': i % 4 == 1})
+    outs = common.run_impl('impl_c16', 'render_pdf', cases, limit=90, chunksize=2)
+    good = []
+    agg = {'pages': 0, 'streams': 0, 'operators': 0, 'objects': 0, 'bytes': 0, 'twins': 0}
+    optcov = set()
+    for c, (st, o) in zip(cases, outs):
+        v = classify_doc(run, c, st, o, 'monitor')
+        if v is None:
+            continue
+        good.append((c, v))
+        for k in ('pages', 'streams', 'operators', 'objects', 'bytes'):
+            agg[k] += v['stats'][k]
+        agg['twins'] += 1 if v['stats'].get('twin') else 0
+        optcov.add((c['options'].get('pdf_variant'), bool(c['options'].get('uncompressed_pdf')), c['options'].get('pdf_version'),
+                    bool(c['options'].get('pdf_forms')), c['zoom'], v['stats']['xref']))
+    run.count('monitor', len(cases), [('doc', i) for i in range(len(good))], samples=[cases[0]['html'][:500], json.dumps(cases[0]['options'])])
+    run.stream_info('monitor', rule='random documents (text, colours of every CSS colour space, backgrounds, gradients, border styles, '
+                    'radius, opacity, transforms, raster and SVG images, links, bookmarks, forms, attachments, tables, lists, columns, '
+                    'page margin boxes, bleed and marks) x options; every output parsed by harness/pdfread.py and judged: file '
+                    'structure, references, page tree = rendered pages, MediaBox, content streams (balance, arity, operand types, '
+                    'named resources in the dictionary in effect), compressed = uncompressed after decoding',
+                    option_combinations=len(optcov), variants=sorted({str(c['options'].get('pdf_variant')) for c in cases}), **agg)
+
+    # ---- stream 5: recorded Stream calls of those renders: model = implementation, premises and conclusions
+    try:
+        docs = [(c, v) for c, v in good if v.get('traces')] + [(c, o) for c, o, _, _ in wdocs]
+        items, masks, skipped = judge_traces(run, docs, 'c16tr')
+        mism = [(docs[ci][0], tr) for (ci, tr), m in zip(items, masks) if m & 1]
+        run.oblige('corr:stream-traces(model = Stream on the %d call sequences the draw code made)' % len(items), not mism,
+                   'first disagreement: %s' % json.dumps([{'html': c['html'][:1500], 'options': c['options'], 'trace': {k: v for k, v in tr.items()}} for c, tr in mism[:1]])[:6000])
+        contradicted = [(docs[ci][0], tr) for (ci, tr), m in zip(items, masks) if m & (2 | 4)]
+        run.oblige('thm-vs-traces(no real trace contradicts the theorems)', not contradicted, json.dumps([tr for _, tr in contradicted[:1]])[:3000])
+        nwb = ntm = nguard = 0
+        for (ci, tr), m in zip(items, masks):
+            case, o = docs[ci]
+            data = {'stream': 'traces', 'html': case['html'], 'options': case.get('options'), 'zoom': case.get('zoom', 1), 'trace_index': tr['index']}
+            nwb += 0 if m & 16 else 1
+            ntm += 0 if m & 32 else 1
+            if m & 8:
+                report(run, 'on a real document a skipped operator was not redundant (stream #%d of the document)' % tr['index'], data, 'F12:skip-not-redundant')
+            if m & 128:
+                run.fail('merging ET BT changed where text is shown (text matrix not set again)', data, signature='stream:merge-unsound')
+            if m & 16 and not o.get('swallowed'):
+                sig = 'calls-not-well-bracketed'
+                # F29: begin_marked_content on the page stream, end_marked_content on the opacity group; without
+                # marking (every variant but pdf/ua-1) both calls emit nothing and the output is unaffected
+                if _wb([x for x in tr['ops'] if x[0] not in ('bmc', 'emc')]):
+                    sig = 'F29:ast:weasyprint/draw/__init__.py:draw_stacking_context:71'
+                report(run, 'the draw code made a call sequence that is not well bracketed on stream #%d' % tr['index'], data, sig)
+            if m & 64:
+                run.oblige('traces:initial-ExtGState-well-formed', False, json.dumps(tr['keys0']))
+        run.count('stream-traces', len(items), [('trace', len(tr['ops']), tuple(o[0] for o in tr['ops'][:8])) for _, tr in items],
+                  samples=[{'ops': items[0][1]['ops'][:25]}] if items else [])
+        run.stream_info('stream-traces', ops=sum(len(tr['ops']) for _, tr in items), well_bracketed=nwb, tm_disciplined=ntm,
+                        not_modelled=skipped, rule='every Stream object of every third monitored document (pages, opacity groups, '
+                        'patterns, masks, form fields): API calls recorded in the worker, replayed in the Coq model, compared with '
+                        'Stream.stream; wb/guarded/tm_disciplined premises and same_rendering evaluated on them')
+    except RuntimeError as exc:
+        run.oblige('corr:stream-traces', False, str(exc))
+
+    # ---- stream 6: bracket skeleton of every decoded content stream judged by the Coq specification
+    try:
+        sk = [(ci, s) for ci, (c, v) in enumerate(good) for s in v['skeletons'] if len(s) <= 6000]
+        uniq = {}
+        for ci, s in sk:
+            uniq.setdefault(tuple(s), ci)
+        keys = list(uniq)
+        masks = common.eval_cases('c16sk', PRE, 'list nat', [clist('%d%%nat' % x for x in s) for s in keys], 'skeleton_judge', per_file=250) if keys else []
+        for s, m in zip(keys, masks):
+            c, v = good[uniq[s]]
+            if m and not v.get('swallowed'):
+                run.fail('content stream skeleton rejected by the Coq specification (mask %d)' % m,
+                         {'stream': 'skeleton', 'html': c['html'], 'options': c['options'], 'zoom': c['zoom'], 'skeleton': list(s)[:400]}, signature='pdf:balance(coq)')
+        run.count('skeleton', len(sk), [('sk', hash(s)) for s in keys])
+        run.stream_info('skeleton', distinct=len(keys), rule='q/Q/BT/ET/BMC|BDC/EMC/cm/text-operator skeleton of every content stream '
+                        'of the monitored PDFs judged by dyck_q, dyck_text, dyck_mc and nested (vm_compute)')
+    except RuntimeError as exc:
+        run.oblige('spec:skeleton-eval', False, str(exc))
+    run.cov['witnesses_still_reproduce'] = witness_state
+    for k, w in run.known_hits:
+        if k.get('signature') in LOCAL_KNOWN and not any(x.get('signature') == k.get('signature') for x in run.known):
+            line = 'KNOWN-FINDING: property=C16 %s [%s] (acknowledged in harness/p_c16.py LOCAL_KNOWN)' % (k['what'], k['signature'])
+            if line not in run.cov.setdefault('local_known_lines', []):
+                run.cov['local_known_lines'].append(line)
+                print(line)
+
+
+def _wb(ops):
+    stack = []
+    for o in ops:
+        k = o[0]
+        intext = bool(stack) and stack[-1] == 't'
+        if k in ('push', 'bt', 'bmc', 'cm') and intext:
+            return False
+        if k == 'tm' and not intext:
+            return False
+        if k in ('push', 'bt', 'bmc'):
+            stack.append({'push': 'q', 'bt': 't', 'bmc': 'm'}[k])
+        elif k in ('pop', 'et', 'emc'):
+            if not stack or stack[-1] != {'pop': 'q', 'et': 't', 'emc': 'm'}[k]:
+                return False
+            stack.pop()
+    return not stack
+
+
+def _has_pair(ops, a, b):
+    return any(x[0] == a and y[0] == b for x, y in zip(ops, ops[1:]))
+
+
+def replay(data):
+    d = data.get('data', {})
+    stream = d.get('stream')
+    if stream in ('monitor', 'witness', 'traces', 'skeleton'):
+        case = {'html': d['html'], 'options': d.get('options') or {}, 'zoom': d.get('zoom', 1), 'expect': d.get('expect'),
+                'record': True, 'twin': True}
+        (st, o), = common.run_impl('impl_c16', 'render_pdf', [case], limit=120)
+        if st != 'ok':
+            print('replay: render %s: %s' % (st, o))
+            return 1
+        print('replay: bad =', o['bad'][:5], 'swallowed =', o.get('swallowed'))
+        rc = 1 if (o['bad'] or o.get('swallowed')) else 0
+        items = [(0, tr) for tr in o.get('traces') or [] if not [f for f in tr['flags'] if f in UNMODELLED or f.startswith(('unmodelled', 'raised'))]]
+        if items:
+            masks = common.eval_cases('c16replay', PRE, TRACE_T, [ctrace(tr) for _, tr in items], 'trace_judge', per_file=60)
+            print('replay: trace masks', masks)
+            rc = rc or (1 if any(m & (1 | 2 | 4 | 8 | 16 | 128) for m in masks) else 0)
+        return rc
+    if stream == 'stream-direct':
+        (st, o), = common.run_impl('impl_c16', 'stream_direct', [d['case']])
+        m = common.eval_cases('c16replay', PRE, CASE_T, [ccase(d['case'], o)], 'stream_judge')
+        print('replay: impl', {k: v for k, v in (o or {}).items() if k != 'bytes'}, 'mask', m)
+        return 1 if m[0] else 0
+    if stream == 'ast':
+        problems, _, _ = ast_pass(common.REPO)
+        print('replay: AST problems', problems)
+        return 1 if problems else 0
+    print('nothing to replay for', stream)
+    return 0
